@@ -1296,6 +1296,25 @@ func (P *Prover) computeLoads() {
 			if !ok {
 				continue
 			}
+			// a variable that lives in a cell only because a closure reads it, and is assigned once:
+			// every load after the assignment is the assigned value
+			if cell, isCell := ld.X.(*ssa.Alloc); isCell && cell.Referrers() != nil {
+				var st *ssa.Store
+				n := 0
+				for _, ref := range *cell.Referrers() {
+					if s, ok := ref.(*ssa.Store); ok && s.Addr == ssa.Value(cell) {
+						st = s
+						n++
+					}
+				}
+				if n == 1 && onlyStore(cell, st) {
+					ps, pl := where[st], where[ld]
+					if (ps.b == pl.b && ps.i < pl.i) || (ps.b != pl.b && ps.b.Dominates(pl.b)) {
+						P.loadRep[ld] = P.canon(st.Val)
+						continue
+					}
+				}
+			}
 			key, ok := P.addrKey(ld.X)
 			if !ok {
 				continue
